@@ -116,7 +116,7 @@ class CatToNumTransform(FittableBaseTransform):
             tf.feat_dict[stype.categorical],
             NAStrategy.MOST_FREQUENT,
         )
-        if not torch.is_floating_point(tf.y) and tf.y.max() > 1:
+        if self.num_classes > 2:
             num_rows, num_cols = tf.feat_dict[stype.categorical].shape
             transformed_tensor = torch.zeros(
                 num_rows,
